@@ -19,7 +19,49 @@ def scenarios(rng, tier):
         for i in range(60):
             if rng.random() < 0.4: s.op('adv', rng.choice([0, 300, 900, 1000, 1100, 1999, 2000, 2500]))
             s.op('ss_sess 0', rng.randrange(8))
+    # very long idle times (16-bit and 32-bit second counters), sequences of one-second gaps, a second automaton created later
+    for st in range(4):
+        for el in (65535, 65536, 65537, 65538, 131072, 131073, 2 ** 31, 2 ** 32 + 1):
+            s.start('long_s%d_el%d' % (st, el)); s.op('mk 0'); s.op('adv', 5000)
+            # reach the state through events
+            for ev in {0: [0], 1: [], 2: [2], 3: [3]}[st]: s.op('ss_sess 0', ev)
+            s.op('adv', el * 1000); s.op('ss_sess 0', rng.choice([2, 3, 4, 5, 7, 0])); s.op('ss_sess 0', rng.randrange(8))
+    for k in range(30 if tier == 'quick' else 600):
+        s.start('gaps_%d' % k); s.op('mk 0'); s.op('adv', 5000 + rng.randrange(1000))
+        for i in range(40):
+            s.op('adv', rng.choice([1000, 1000, 999, 1, 0, 1001, 2000])); s.op('ss_sess 0', rng.choice([7, 7, 2, 3, 4, 5, 0, 6, 1]))
+    for k in range(8 if tier == 'quick' else 100):
+        s.start('second_%d' % k); s.op('mk 0'); s.op('adv', 3000 + rng.randrange(9000)); s.op('ss_sess 0', 2)
+        s.op('adv', rng.choice([1500, 5000, 70000])); s.op('mk 1'); s.op('adv', rng.choice([0, 300, 900]))
+        for ev in (rng.choice([2, 3, 0]), rng.randrange(8), rng.randrange(8)): s.op('ss_sess 1', ev); s.op('adv', rng.choice([0, 500]))
     return [(s.text(), {})]
+SPEC = {(1, 2): 2, (1, 3): 3, (1, 0): 0, (2, 3): 3, (2, 5): 3, (3, 4): 2, (0, 7): 1, (0, 6): 1}
+def oracle(name, ib, mb, meta):
+    """the life-cycle of the property statement, from the operations alone; time-out = 1 s of inactivity (the source's
+    value, regenerated); events outside 0..7 are left unspecified"""
+    fails = []; now = 0; st = {}; last = {}
+    for i, b in enumerate(ib):
+        if b.fault: break
+        t = b.op.split()
+        if 'now' in b.kv and t[0] == 'adv': now = int(b.kv['now'])
+        ns = now // 1000
+        if t[0] == 'mk': st[t[1]] = 1; last[t[1]] = ns
+        elif t[0] == 'set_sess': st[t[1]] = int(t[2]); last[t[1]] = int(t[3])
+        elif t[0] == 'ss_sess' and 'sess' in b.kv and t[1] in st:
+            ev = int(t[2]); c = t[1]
+            if not 0 <= ev <= 7: st.pop(c, None); continue
+            cur = st[c]
+            if ns - last[c] > 1: cur = 1 if True else cur         # inactivity returns every state to Nascent ...
+            exp_timeout = ns - last[c] > 1
+            if exp_timeout:
+                want = {1}                                         # ... and the event that woke it up is consumed by that step
+            else:
+                want = {1 if ev == 1 else SPEC.get((cur, ev), cur)}
+            got = int(b.kv['sess'].split('@')[0])
+            if got not in want:
+                fails.append((i, 'session automaton in state %d after event %d (%d s after the previous event, state before %d); the life-cycle gives %s' % (got, ev, ns - last[c], st[c], sorted(want)))); break
+            st[c] = got; last[c] = ns
+    return fails
 def project(blk, name, meta):
     return project_keys(blk, ['sess'])
 def count(name, lines, ib, stats, meta):
